@@ -157,7 +157,18 @@ def _r101(ck, prog, cfg):
         ck.check(v.kind == "call" and is_callee(v.term, r"WalReader::entries$"), "R10.1", "recover-uses-entries" + _tag(cfg),
                  "recover_all_entries collects entries from %s instead of the validating WalReader::entries" % v.path(),
                  rec.where(et["ln"]), detail="all_entries.extend(reader.entries())")
-    ck.floor("R10.1-recover" + _tag(cfg), len(ext), 1)
+    # where do the entries of one file go?  appended: fine.  stored under a key: a second file with the same key replaces them
+    keyed = 0
+    for b, t in rec.calls():
+        if is_callee(t, r"(BTreeMap|HashMap|AHashMap)::<.*>::insert$", r"Entry::<.*>::(or_insert|or_insert_with)\b") and len(t["args"]) >= 2:
+            v = src_of_operand(rec, t["args"][-1])
+            if v.kind == "call" and is_callee(v.term, r"WalReader::entries$"):
+                keyed += 1
+                ck.bad("R10.1", "recover-keyed-by-file-attribute" + _tag(cfg),
+                       "recover_all_entries stores the entries of a file in a map keyed by an attribute read from the file: two files "
+                       "carrying the same key (a stale or damaged header) replace one another and every intact entry of the first is "
+                       "lost", rec.where(t["ln"]))
+    ck.floor("R10.1-recover" + _tag(cfg), len(ext) + keyed, 1)
 
 
 def _r103(ck, prog, cfg):
@@ -180,7 +191,8 @@ def _r103(ck, prog, cfg):
                      "a file that fails %s aborts recovery of all other files (error returned instead of skipping the file)" % name,
                      rec.where(t["ln"]), detail="Err edge continues the per-file loop")
     ck.floor("R10.3" + _tag(cfg), n, 2)
-    sorts = [(b, t) for b, t in rec.calls() if is_callee(t, r"<impl \[.*\]>::sort", r"slice::<impl \[T\]>::sort")]
+    sorts = [(b, t) for b, t in rec.calls() if is_callee(t, r"<impl \[.*\]>::sort", r"slice::<impl \[T\]>::sort",
+                                                       r"Iterator>::collect::<std::collections::BTree(Map|Set)<\(?u64")]
     loops = [(b, t) for b, t in rec.calls() if is_callee(t, r"WalStore>::open_read$")]
     ck.check(bool(sorts) and bool(loops) and all(rec.dominates(sb, lb) for sb, _ in sorts[:1] for lb, _ in loops), "R10.3",
              "files-sorted-before-read" + _tag(cfg), "WAL files are not sorted by sequence before being read", rec.where(),
